@@ -134,6 +134,22 @@ pub fn run(ctx: &Ctx, rep: &mut Report) {
                     }
                 }
                 if let (TV::Str(x), TV::Str(y)) = (a, b) {
+                    // strings are ordered character by character (code points)
+                    let cmp = match op.trim_start_matches('.') {
+                        "<" => Some(x.chars().lt(y.chars())),
+                        "<=" => Some(x.chars().le(y.chars())),
+                        ">" => Some(x.chars().gt(y.chars())),
+                        ">=" => Some(x.chars().ge(y.chars())),
+                        "==" => Some(x == y),
+                        "!=" => Some(x != y),
+                        _ => None,
+                    };
+                    if let Some(e) = cmp {
+                        let want = format!("(ok (bool {}))", if e { "t" } else { "f" });
+                        if r != want {
+                            rep.finding("oracle", "string-comparison-not-by-characters", &desc, &format!("got {} expected {}", r, want), "c11.compare");
+                        }
+                    }
                     if *op == "+" && r != format!("(ok (str {}))", wire::hs(&format!("{}{}", x, y))) {
                         rep.finding("oracle", "string-concat", &desc, &r, "c11.concat");
                     }
